@@ -118,6 +118,7 @@ def floors(tier):
             "parameter_errors": 100 if q else 2000,
             "parameter_cov_mat": 100 if q else 2000,
             "parameter_cor_mat": 100 if q else 2000,
+            "state-round-trip": 60 if q else 1200,
             "goodness_of_fit": 150 if q else 3000,
             "cost_function_value": 150 if q else 3000,
             "ndf": 150 if q else 3000,
@@ -127,7 +128,7 @@ def floors(tier):
         },
         "ops": ["do_fit", "triple"] + ["triple:%s" % k for k in KINDS],
         "reach": ["%s:%s" % a for a in ANCHORS],
-        "strata": ["|".join(s) for s in STRATA] + ["xy", "indexed", "multi", "linear", "nonlinear", "x-errors", "model-relative", "matrix-source", "active-limit", "constraint-matrix", "asym|iminuit"]
+        "strata": ["|".join(s) for s in STRATA] + ["xy", "indexed", "multi", "linear", "nonlinear", "x-errors", "model-relative", "matrix-source", "active-limit", "constraint-matrix", "asym|iminuit", "state-round-trip|names-not-in-alphabetical-order"]
         + ([] if q else ["asym|scipy"]),
         "sets": {"family": 10, "par-perm-order": 8},
         "distinct_nontrivial": 60 if q else 3000,
@@ -1099,6 +1100,35 @@ def compare_triple(ctx, case, vi, base, bres, sig_b, guards):
             ctx.check("error_band", okb, lambda: dict(tag, member=j, x=base.band_x[j], got=tbnd, expected=exp_b, tolerance_rel=1.5 * etol), key=key_cov)
     if not oke:
         return
+
+    # ---- the fitted state written with save_state and read by a freshly built fit of the same (transformed) problem: values and
+    # uncertainties must come back under the names they belong to, whatever the order or spelling of the names
+    if problem["kind"] != "multi":
+        import os
+        import shutil
+        import tempfile
+
+        tdir = tempfile.mkdtemp(prefix="verif-c15-")
+        try:
+            ctx.op("save_state/load_state")
+            path = os.path.join(tdir, "state.yml")
+            tb.fit.save_state(path)
+            twin = Built(tproblem, with_ref=False)
+            twin.configure()
+            twin.fit.load_state(path)
+            gv = np.array(twin.fit.parameter_values, dtype=float)
+            ge = np.array(twin.fit.parameter_errors, dtype=float)
+            okn = list(twin.fit.parameter_names) == list(names_t)
+            okv = okn and bool(np.allclose(gv, tres["values"], rtol=1e-12, atol=0.0, equal_nan=True))
+            oke2 = okn and bool(np.allclose(ge, tres["errors"], rtol=1e-9, atol=0.0, equal_nan=True))
+            ctx.check("state-round-trip", okv and oke2, lambda: dict(tag, names=names_t, names_after=list(twin.fit.parameter_names), values=tres["values"], values_after=gv, errors=tres["errors"], errors_after=ge, sorted_names=sorted(names_t) == list(names_t)))
+            if sorted(names_t) != list(names_t):
+                ctx.stratum("state-round-trip", "names-not-in-alphabetical-order")
+        except Exception:
+            ctx.violation(None, "state-round-trip.no-exception", dict(tag, traceback=fmt_exc()))
+            return
+        finally:
+            shutil.rmtree(tdir, ignore_errors=True)
 
     # ---- asymmetric errors (read last: the query itself may move the fit slightly, C08)
     if case.get("asym") and bres.get("asym") is not None:
